@@ -39,9 +39,8 @@ CLAIMED.update({
     "C07": ("proof", "Every function under contract (the whole extracted file: ~105 real functions of utils/const_fns.rs, datetime/mod.rs, timezone/mod.rs, timezone/rule.rs) is verified by Verus in exec mode, where each + - * / % cast, index, slice, unreachable!() and loop generates an obligation: no panic, no overflow with overflow checks on, no out-of-bounds, termination, for all inputs admitted by preconditions that are `true` or constructor-established type invariants. "
             "NOT covered and excluded from the claim: both parsers, datetime/find.rs, Display/format_date_time, TimeZone/TimeZoneSettings, TzAsciiStr::as_bytes/as_str, allocation bounds, builds without overflow checks.", "5/C07",
             "This is a claim about the named function set only (coverage.functions_under_contract); the uncovered public operations are listed in coverage.extraction.not_under_contract. "),
-    "C11": ("proof", "AlternateTime::new returns Ok exactly when both offsets are in (-25h, 26h), both times within +-7d and the three start/end relations never change sign over all integer years; each error kind names the first violated condition. Pairs of Jn / n notations: complete proof down to the calendar axioms. "
-            "Pairs involving Mm.w.d: the real functions are proved equal to the audited decision procedures (any behavioural change fails an obligation); that these procedures decide order stability is an ASSUMED lemma (axiom_mj_stable / axiom_mm_stable), supported by the design-phase exhaustive comparison (131M decisions) and the bounded probe only.", "5/C11",
-            "Assumed: axiom_mj_stable, axiom_mm_stable (listed in evidence.assumptions). "),
+    "C11": ("proof", "AlternateTime::new returns Ok exactly when both offsets are in (-25h, 26h), both times within +-7d and the three start/end relations never change sign over ALL integer years; each error kind names the first violated condition. Complete proof for all 9 notation pairs down to the calendar axioms: year classes and 21 witness years for Jn / n and mixed pairs; for Mm.w.d x Mm.w.d the finite core (all month / week / weekday / year-class combinations) is decided by computation inside Verus (assert by compute) and linked to the calendar by lemmas; the real check functions are proved equal to the decision procedures.", "5/C11, S.1",
+            "Additionally trusted for this property: Verus's assert-by-compute interpreter (lemma_mm_compute_*). "),
 })
 
 CLAIMED.update({
@@ -49,6 +48,11 @@ CLAIMED.update({
             "Bounded in buffer length; unique/earliest/latest are compared only by the bounded concrete probe. Trusted: Kani 0.68 / CBMC 6.11, the parametricity argument. ",
             "Kani/CBMC bounded inductive step on the real data-structure operations + structural shape check (bounded stand-in for a contract proof)"),
 })
+
+BOUNDED_SEARCH = ("other", "BOUNDED stand-in, not a proof (the search function is outside Verus's subset). Thorough tier: Kani/CBMC on the REAL find_date_time with a recorder list, for every table of 1..=3 transitions with arbitrary i64 times / type indices / i32 offsets (no leap seconds, trailing rule none or fixed) and every searched field tuple: result set sound and complete against the forward lookup, no duplicates, gap entries exactly at forward transitions with the right two types, ascending order; callees replaced by their Verus-proved contracts. Every tier: bounded concrete comparison of DateTime::find with an independent oracle of the result set through the public API (table zones with/without leap seconds and fixed rule; rule-only DST zones).", "S.6",
+            "Bounded: <= 3 transitions, no leap seconds and no DST rule in the symbolic part; the DST-rule branch and leap seconds are only exercised by the bounded concrete probe. The quick tier runs the concrete probe and the structural check only (the Kani harnesses take 11 and 27 minutes). Trusted: Kani 0.68 / CBMC 6.11, the stubs standing for Verus-proved contracts, the parametricity argument of C17. ",
+            "bounded model checking (Kani/CBMC) of the real search function with contract stubs + bounded concrete oracle comparison (stand-in for a contract proof)")
+CLAIMED.update({"C05": BOUNDED_SEARCH, "C06": BOUNDED_SEARCH})
 
 NA = {
     "C05": "find_date_time is outside Verus's subset (FnMut closure with captured cache, iterator adapters, impl Trait) and every bounded Kani formulation probed ran out of time/memory (DESIGN.md section 5 and 9); its ingredients are proved under C02/C03/C04/C12/C14",
